@@ -255,15 +255,15 @@ def to_ouv(o) -> str:
 # running Coq on cases (several verdict functions per file)
 # ---------------------------------------------------------------------------
 
-def coq_verdicts(name: str, cases: list[str], case_type: str, funs: list[str], shard=400, jobs=4, timeout=600, imports="UnionModel UnionCases"):
+def coq_verdicts(name: str, cases: list[str], case_type: str, funs: list[str], shard=400, jobs=4, timeout=600, imports="UnionModel UnionCases", gen_imports="", needs=()):
     """For each function f in funs: indices i with f (case i) = false. None + log when Coq failed."""
-    br = vlib.coq_make(["theories/Wire.vo", "theories/PyK.vo", "theories/UnionCases.vo", "theories/UnionDeep.vo"], jobs=4)
+    br = vlib.coq_make(["theories/Wire.vo", "theories/PyK.vo", "theories/UnionCases.vo", "theories/UnionDeep.vo"] + list(needs), jobs=4)
     if not br.ok:
         return None, "model does not build: " + (br.error or "")
     files = []
     for si in range(0, max(len(cases), 1), shard):
         chunk = cases[si:si + shard]
-        txt = vlib.CASE_HEADER.format(imports=imports, gen_imports="")
+        txt = vlib.CASE_HEADER.format(imports=imports, gen_imports=gen_imports)
         txt += f"Definition cases : list ({case_type}) :=\n  [" + ";\n   ".join(chunk) + "].\n"
         for f in funs:
             txt += f"Eval vm_compute in (bad_idx ({f}) cases).\n"
@@ -577,7 +577,7 @@ def decode_part(ctx: vlib.Ctx, mod, mem: Members):
     corr(ctx, "optional-decode-model-vs-impl", ocases, oinfo, "ocase", ["ocase_ok"])
 
 
-def corr(ctx, name, cases, info, ctype, funs, stale_fun=None, imports="UnionModel UnionCases", shard=400):
+def corr(ctx, name, cases, info, ctype, funs, stale_fun=None, imports="UnionModel UnionCases", shard=400, gen_imports="", needs=()):
     """funs[0] = overall verdict, the others only explain a failure.  stale_fun marks cases where the
     implementation agrees with the reference while the (faithful, defect-containing) model deviates in a
     listed way: a repaired finding; reported as model-stale, not as a violation."""
@@ -591,7 +591,7 @@ def corr(ctx, name, cases, info, ctype, funs, stale_fun=None, imports="UnionMode
         info = [info[i] for i in idx]
     allf = list(funs) + ([f"fun c => negb ({stale_fun} c)"] if stale_fun else [])
     bads, log = coq_verdicts("c11_" + name.split("-model")[0].replace("-", "_"), cases, ctype, allf,
-                             jobs=4 if ctx.quick() else 10, imports=imports, shard=shard)
+                             jobs=4 if ctx.quick() else 10, imports=imports, shard=shard, gen_imports=gen_imports, needs=needs)
     if bads is None:
         ctx.correspondence(name, len(cases), -1, log)
         ctx.not_shown("correspondence " + name, log)
@@ -1480,10 +1480,100 @@ class DeepSite(Site):
         self._dec = self._enc = None
 
 
+# ---------------------------------------------------------------------------
+# K16: the translated emission loop vs the method text the real generator produces
+# ---------------------------------------------------------------------------
+FB_TEXT = {"int(value)": "KInt", "float(value)": "KFloat", "bool(value)": "KBool", "str(value)": "KStr", "None": "KNone"}
+TM_NAME = {"int": "KInt", "float": "KFloat", "bool": "KBool", "str": "KStr", "NoneType": "KNone"}
+
+
+def capture_union_source(mod, tp):
+    """source of the union method compiled last while BasicDecoder(tp) is built (the outermost union)"""
+    import builtins
+    import mashumaro.core.meta.types.common as _common
+    got = []
+
+    def rec(src, g=None, l=None):
+        if "def __unpack_union_" in src or "def __unpack_type_var_" in src:
+            got.append(src)
+        return builtins.exec(src, g, l)
+    old = _common.__dict__.get("exec")
+    _common.exec = rec
+    try:
+        mod.__dict__["BasicDecoder"](tp)
+    finally:
+        if old is None:
+            del _common.exec
+        else:
+            _common.exec = old
+    return got[-1] if got else None
+
+
+def parse_union_source(src: str):
+    lines = [x.strip() for x in src.splitlines()[1:] if x.strip() and not x.strip().startswith("setattr(")]
+    codes, i = [], 0
+    while i < len(lines):
+        ln = lines[i]
+        m = re.match(r"if (__value_type|type\(value\)) is (\w+):$", ln)
+        if ln == "__value_type = type(value)":
+            codes.append("CVT"); i += 1
+        elif m and i + 1 < len(lines) and lines[i + 1] == "return value" and m.group(2) in TM_NAME:
+            codes.append(f"(CTM {'true' if m.group(1) == '__value_type' else 'false'} {TM_NAME[m.group(2)]})"); i += 2
+        elif ln == "return value":
+            codes.append("CRET"); i += 1
+        elif ln == "try:" and i + 2 < len(lines) and lines[i + 1].startswith("return ") and lines[i + 2] == "except Exception: pass":
+            e = lines[i + 1][len("return "):]
+            codes.append(f"(CFB {FB_TEXT[e]})" if e in FB_TEXT else "CTRY"); i += 3
+        elif ln.startswith("raise "):
+            codes.append("CRAISE"); i += 1
+        else:
+            codes.append("CBAD"); i += 1
+    return codes
+
+
+def k16_part(ctx: vlib.Ctx, mod):
+    """(T) validation of kernel K16: for real unions, the line shapes of the generated method must be what the
+    translated loop (coq/gen/K16.v) emits for the same member list."""
+    if not ctx.kernel_report.get("K16", {}).get("ok", False):
+        ctx.not_shown("kernel K16", str(ctx.kernel_report.get("K16", {}).get("error")))
+        return
+    rng = ctx.rng
+    exprs = [e for e in CURATED_UNIONS if not e.startswith("Optional[")]
+    for _ in range(ctx.budget(120, 800)):
+        e, ent = gen_union_expr(rng, encode=False)
+        if ent != "typevar":
+            exprs.append(e)
+    cases, info, skipped = [], [], 0
+    for expr in exprs:
+        for _f in getattr(typing, "_cleanups", []):
+            _f()
+        tp = eval(expr, mod.__dict__)
+        members = list(typing.get_args(tp))
+        if typing.get_origin(tp) is not typing.Union or (len(members) == 2 and NoneType in members):
+            continue
+        src = capture_union_source(mod, tp)
+        if src is None:
+            ctx.not_shown("kernel K16 validation", f"no union method compiled for {expr}")
+            continue
+        codes = parse_union_source(src)
+        nonscalar = [m for m in members if m not in SCALARS and m is not typing.Any]
+        if codes.count("CTRY") != len(nonscalar):
+            skipped += 1      # two members rendered to one expression: ids are not observable from outside
+            continue
+        lite = [f"LS {KIND[m]}" if m in SCALARS else f"LN {i} {'true' if m is typing.Any else 'false'}" for i, m in enumerate(members)]
+        cases.append(f"([{'; '.join(lite)}], [{'; '.join(codes)}])")
+        info.append((expr, " ".join(codes)))
+        ctx.count(("k16", tuple(member_label(m) for m in members)))
+    ctx.hist("k16_validation", "compared", len(cases))
+    ctx.hist("k16_validation", "skipped-duplicate-expression", skipped)
+    corr(ctx, "K16-translation-vs-generated-source", cases, info, "list mlite * list lcode", ["k16case_ok"],
+         imports="UnionModel UnionEmit K16Cases", gen_imports="From VerifGen Require Import K16.", needs=("theories/K16Cases.vo",))
+
+
 THEOREMS = [
     "C11_union_decode_partial", "C11_union_deviation_char", "C11_union_shadow_result", "C11_union_none_refuted",
     "C11_union_shadow_refuted", "C11_no_cross_coercion", "C11_scalars_first_no_shadow", "C11_union_result_from_member",
-    "C11_union_raises_iff", "C11_none_member_never_raises", "C11_deterministic", "C11_union_dedup_invisible", "C11_nested_union_partial", "C11_shape_positions", "C11_typevar_constraints_win", "C11_typevar_partial", "C11_deep_decode_partial", "C11_deep_decode_refuted", "C11_opt",
+    "C11_union_raises_iff", "C11_none_member_never_raises", "C11_deterministic", "C11_union_dedup_invisible", "C11_nested_union_partial", "C11_shape_positions", "C11_typevar_constraints_win", "C11_typevar_partial", "C11_deep_decode_partial", "C11_deep_decode_refuted", "C11_union_emit_correct", "C11_union_emitted_partial", "C11_opt",
     "C11_union_encode_partial", "C11_union_encode_refuted", "C11_literal_full", "C11_literal_encode_full",
     "C11_literal_returns_listed", "C11_literal_accepts_listed",
 ]
@@ -1497,7 +1587,7 @@ def run(ctx: vlib.Ctx):
         "dataclass field, List element; inputs: 62 basic-form values of every scalar class, lists, dicts and garbage. "
         "distinct = (member mix in order, path, input class, verdict class, outcome). Literal: 1-4 listed values of "
         "int/bool/str/None/enum/bytes x 27 inputs.")
-    ctx.theorems("props/C11_union.vo", THEOREMS)
+    ctx.theorems("props/C11_union.vo", THEOREMS, kernels=["K16"])
     ctx.trusted += [
         "UnionModel.v is hand-written from UnionUnpackerBuilder._add_body / pack_union / LiteralUnpackerBuilder / expr_or_maybe_none; "
         "tied to /repo only behaviourally (correspondence on every run), parametric in the member (un)packers whose behaviour is "
@@ -1526,6 +1616,7 @@ def run(ctx: vlib.Ctx):
     shapes_part(ctx, mod, mem)
     typevar_part(ctx, mod, mem)
     deep_part(ctx, mod, mem)
+    k16_part(ctx, mod)
 
 
 # ---------------------------------------------------------------------------
